@@ -26,6 +26,7 @@ import GrcovModel.Lemmas.Rewrite
 import GrcovModel.Props.C11Partial
 import GrcovModel.Props.C11Symlink
 import GrcovModel.Props.C11Main
+import GrcovModel.Props.C11Glob
 namespace Grcov.Props.C11
 open Grcov Grcov.UPath Grcov.Glob Grcov.Rewrite
 
